@@ -271,10 +271,12 @@ func (cl *Client) refreshSession(s *session) (bool, error) {
 	s.mux.RLock()
 	realm := s.realm
 	renewTill := s.renewTill
+	endTime := s.endTime
 	verifLock("rel", "session", "r", s)
 	s.mux.RUnlock()
 	cl.Log("refreshing TGT session for %s", realm)
-	if time.Now().UTC().Before(renewTill) {
+	// Only a TGT that is still valid can be renewed. One that ran out (say, while no KDC could be reached) needs a new login.
+	if now := time.Now().UTC(); now.Before(renewTill) && now.Before(endTime) {
 		err := cl.renewTGT(s)
 		return true, err
 	}
